@@ -136,6 +136,10 @@ func runC01(c *Ctx) {
 	fams := c01Families(c, m)
 	c01TierReset(c, p)
 	c01Cancel(c, m, fams, "C01.cancel")
+	// label-inheritance plumbing (shared checker, also armed under C03 and C07): an endpoint that keeps
+	// pointing at an orphaned parent never inherits labels that arrive later — output depends on history.
+	c.Rule("C01.inheritreg", "E-GUARD/E-ORDER/E-FLOW", "label inheritance registry discipline (c07ParentReg): a parent entry is deleted only when it has no children and no labels; an item is unregistered from an old parent only if that parent is not among its new parents; every parent pointer an item holds is the registered object", 4)
+	c07ParentReg(c, p, "C01.inheritreg")
 	c01FlushClears(c, m)
 	c01NilNoType(c, p)
 	c01Sync(c, p)
